@@ -73,6 +73,11 @@ where
         }
     }
 
+    /// Makes the "log prune" processor ignore this event.
+    pub(crate) fn skip_log_prune(&mut self) {
+        self.log_prune_args = LogPruneArgs::Ignore;
+    }
+
     /// System-level data (append-only log, pruning coordination, etc.) of this operation.
     pub fn header(&self) -> &Header<E> {
         &self.operation.header
